@@ -59,10 +59,12 @@ def corpus():
             if fn.endswith(".nsl") and os.path.isfile(p):
                 with open(p, encoding="utf-8") as f:
                     out.append((fn[:-4], f.read()))
-        libs = []
-        for name in ("libA", "libB", "libC"):
-            with open(os.path.join(CORPUS_DIR, "libs", name + ".nsl")) as f:
-                libs.append([name, f.read()])
+        libs = {}
+        for ver, d in (("0", "libs"), ("1", "libs_v1")):
+            libs[ver] = []
+            for name in ("libA", "libB", "libC"):
+                with open(os.path.join(CORPUS_DIR, d, name + ".nsl")) as f:
+                    libs[ver].append([name, f.read()])
         _corpus_cache = (out, libs)
     return _corpus_cache
 
@@ -122,6 +124,7 @@ def generate(seed, tier):
     if with_imports:
         imps = [i for i, s in enumerate(pool) if "import " in s]
         focus += [(rng.choice(imps), rng.randrange(2)) for _ in range(2)]
+    relib = rng.random() < 0.5
     nproc = rng.randint(2, 5 if tier == "quick" else 6)
     procs = []
     used = set()
@@ -146,6 +149,15 @@ def generate(seed, tier):
             hist[pos:pos] = [[i, dict(OPTSETS[o])], [i, dict(OPTSETS[o])]]
             hist.append([i, dict(OPTSETS[o])])
             used.add(i)
+        libver = 0
+        if with_imports and relib:
+            # the store's library modules are an input too: some processes start with
+            # version 1, some rebuild the libraries in the middle of their history
+            libver = rng.randrange(2)
+            v = libver
+            for _ in range(rng.randint(0, 2)):
+                v = 1 - v
+                hist.insert(rng.randrange(len(hist) + 1), [-1, {"relib": v}])
         cache = rng.choice(["valid", "valid", "absent", "stale", "unwritable"])
         if rng.random() < 0.04:
             cache = "torn"  # probe P4 (beyond the statement): never judged
@@ -154,6 +166,7 @@ def generate(seed, tier):
                 "hs": rng.choice([0, 1, rng.randint(0, 2 ** 32 - 1), rng.randint(0, 2 ** 32 - 1)]),
                 "cache": cache,
                 "cwd": rng.choice(["w0", "w1"]),
+                "libver": libver,
                 "history": hist,
             }
         )
@@ -161,12 +174,12 @@ def generate(seed, tier):
     idx = sorted(used)
     remap = {i: k for k, i in enumerate(idx)}
     for p in procs:
-        p["history"] = [[remap[i], o] for i, o in p["history"]]
+        p["history"] = [[remap[i] if i >= 0 else -1, o] for i, o in p["history"]]
     return {
         "kind": "c18",
         "seed": seed,
         "sources": [pool[i] for i in idx],
-        "libs": libs if with_imports else [],
+        "libs": libs if with_imports else {},
         "procs": procs,
     }
 
@@ -270,8 +283,10 @@ def _execute(sc, root, want_texts):
             "tree": tree,
             "cwd": os.path.join(pdir, pr["cwd"]),
             "unwritable": pr["cache"] == "unwritable",
-            "libs": sc.get("libs", []),
-            "history": [[sc["sources"][i], o] for i, o in pr["history"]],
+            "libs": (sc.get("libs") or {}).get(str(pr.get("libver", 0)), []) if isinstance(sc.get("libs"), dict)
+            else sc.get("libs", []),
+            "lib_versions": sc.get("libs") if isinstance(sc.get("libs"), dict) else {},
+            "history": [[sc["sources"][i] if i >= 0 else None, o] for i, o in pr["history"]],
             "texts": bool(want_texts),
         }
         res, err = run_proc(pdir, plan, pr["hs"])
@@ -301,8 +316,16 @@ def _execute(sc, root, want_texts):
             bump("probe_table_write_refused", res["table_write_refused"])
         outs = []
         prev = "start"
+        ver = pr.get("libver", 0)
         for pos, ((i, o), ob) in enumerate(zip(pr["history"], res["obs"])):
+            if i < 0:
+                ver = o["relib"]
+                bump("probe_libraries_rebuilt_mid_history")
+                prev = f"relib{ver}"
+                continue
             key = _key(sc, i, o)
+            if "import " in sc["sources"][i]:
+                key += f"|libs-v{ver}"  # the store content is part of the input
             kind = ob["o"]
             bump("compilations")
             bump("outcome_" + kind.split(":")[0].lower())
@@ -402,12 +425,13 @@ def shrink_candidates(sc):
                 c = copy.deepcopy(sc)
                 c["procs"][k]["history"][j][1].pop("debug-passes")
                 yield c
-    if sc.get("libs") and not any("import " in sc["sources"][i] for p in procs for i, _o in p["history"]):
-        yield dict(sc, libs=[])
+    if sc.get("libs") and not any(i >= 0 and "import " in sc["sources"][i] for p in procs for i, _o in p["history"]):
+        yield dict(sc, libs={})
     # drop unused sources (re-index)
-    used = sorted({i for p in procs for i, _o in p["history"]})
+    used = sorted({i for p in procs for i, _o in p["history"] if i >= 0})
     if len(used) < len(sc["sources"]):
         remap = {i: k for k, i in enumerate(used)}
+        remap[-1] = -1
         c = copy.deepcopy(sc)
         c["sources"] = [sc["sources"][i] for i in used]
         for p in c["procs"]:
@@ -420,7 +444,8 @@ def describe(sc):
     for k, p in enumerate(sc["procs"]):
         out.append(
             f"  process {k}: PYTHONHASHSEED={p['hs']} table cache={p['cache']} cwd={p['cwd']} history="
-            + " ".join(f"#{i}{'O' if o.get('optimize') else ''}{'W' if o.get('wasm') else ''}" for i, o in p["history"])
+            + " ".join((f"#{i}{'O' if o.get('optimize') else ''}{'W' if o.get('wasm') else ''}" if i >= 0
+                        else f"relib-v{o['relib']}") for i, o in p["history"])
         )
     for i, s in enumerate(sc["sources"]):
         out.append(f"  source #{i}:")
@@ -439,7 +464,7 @@ def sample_view(sc):
             for p in sc["procs"]
         ],
         "sources": {f"#{i}": (s if len(s) < 400 else s[:400] + "...") for i, s in enumerate(sc["sources"])},
-        "libs": [n for n, _s in sc.get("libs", [])],
+        "libs": sorted(sc["libs"]) if isinstance(sc.get("libs"), dict) else [],
     }
 
 
